@@ -581,22 +581,26 @@ Qed.
 Definition op_ok (L : layer) (o : op) : Prop :=
   match o with
   | Read _ off len => 0 <= off /\ 0 <= len
+  | ReadI _ off len env => 0 <= off /\ 0 <= len /\ (forall k b c0, Honest L c0 -> Honest L (env k b c0))
   | Env c => Honest L c
   | _ => True
   end.
 
 Definition expected_out (L : layer) (o : op) : option rres :=
   match o with
-  | Read i off len => let d := f_data (file_at L i) in Some (ROk (slice off (Z.min len (zlen d - off)) d))
+  | Read i off len | ReadI i off len _ => let d := f_data (file_at L i) in Some (ROk (slice off (Z.min len (zlen d - off)) d))
   | _ => None
   end.
 
 Lemma step_exact : forall L c o, LayerOK L -> Honest L c -> op_ok L o ->
   Honest L (fst (step L c o)) /\ option_map fst (snd (step L c o)) = expected_out L o.
 Proof.
-  intros L c o HL Hc Ho. destruct o as [i off len| |ks|c']; simpl in *.
+  intros L c o HL Hc Ho. destruct o as [i off len|i off len env| |ks|c']; simpl in *.
   - destruct Ho as (Ho & Hl).
     destruct (read_file_exact L i c off len HL Hc Ho Hl) as (c' & tr & Heq & Hc').
+    rewrite Heq. simpl. split; [assumption|reflexivity].
+  - destruct Ho as (Ho & Hl & He).
+    destruct (read_file_env_exact L i env c off len HL Hc He Ho Hl) as (c' & tr & Heq & Hc').
     rewrite Heq. simpl. split; [assumption|reflexivity].
   - split; [|reflexivity]. apply honest_add_honest. assumption.
   - split; [|reflexivity]. apply honest_fold_cdel. assumption.
